@@ -474,6 +474,9 @@ class PlainModel:
             return "RecursionError"
         if k in ("deepcopy", "pickle"):
             H[op[2]] = self._new(H[op[1]]["p"], H[op[1]]["sp"])
+            if k == "deepcopy":
+                # the deep copy's state point object holds deep copies of all job objects of the group
+                self.gsize[H[op[2]]["g"]] = self.gsize[H[op[1]]["g"]]
             return "ok"
         if k == "pickleproc":
             H[op[2]] = self._new(H[op[1]]["p"], H[op[1]]["sp"])
